@@ -620,6 +620,12 @@ class Engine:
             return h
         raise OutOfSubset("listcomp", e)
 
+    def e_SetComp(self, e, st):
+        h = self.contract.setcomp(self, st, e) if hasattr(self.contract, 'setcomp') else None
+        if h is not None:
+            return h
+        raise OutOfSubset("setcomp", e)
+
     def e_GeneratorExp(self, e, st):
         h = self.contract.genexp(self, st, e) if hasattr(self.contract, 'genexp') else None
         if h is not None:
